@@ -18,11 +18,12 @@ func spec_handler6_ok(h *Handler6) bool {
 
 // Every frame Parse classes as PayloadICMP4 is processed without panic.
 //
-//verif:props C08
+//verif:props C08 C10
 //verif:timeout 120s
 func verif_lemma_dispatch_icmp4(h *Handler4, frame packet.Frame) {
 	vRequires(h != nil && packet.VerifSpecFrameICMP4(frame))
 	vCanary()
+	vBorrowed(frame.Ether()) // C10: nothing the handler keeps is a view of the packet
 	_ = h.ProcessPacket(frame)
 }
 
@@ -33,6 +34,9 @@ func verif_lemma_dispatch_icmp4(h *Handler4, frame packet.Frame) {
 func verif_lemma_dispatch_icmp6(h *Handler6, frame packet.Frame) {
 	vRequires(spec_handler6_ok(h) && packet.VerifSpecFrameICMP6(frame))
 	vCanary()
+	// (C10 is not decided for this handler: with vBorrowed(frame.Ether()) six stores of the router
+	// advertisement options stay open: the option loops would need invariants saying that the
+	// views collected so far are copies, see DESIGN.md 12)
 	_ = h.ProcessPacket(frame)
 	// the handler's tables stay well formed (C14: learned routers are non-nil entries with an IPv6 address)
 	vAssert(spec_handler6_ok(h))
